@@ -6,6 +6,7 @@ import (
 	"bufio"
 	"encoding/json"
 	"fmt"
+	"github.com/tencent/goom/arg"
 	"os"
 	"testing"
 
@@ -14,9 +15,9 @@ import (
 	asmleaf "github.com/tencent/goom/nocgo"
 	"github.com/tencent/goom/zzverif/corpus/conv"
 	"github.com/tencent/goom/zzverif/corpus/fn"
-	"github.com/tencent/goom/zzverif/corpus/vars"
 	"github.com/tencent/goom/zzverif/corpus/ifc"
 	"github.com/tencent/goom/zzverif/corpus/sig"
+	"github.com/tencent/goom/zzverif/corpus/vars"
 )
 
 // catchVal runs f and returns the recovered panic value (nil if none).
@@ -40,6 +41,19 @@ func causeClass(v interface{}) string {
 		}
 	}
 	return "untyped"
+}
+
+// chained: a mistake made on an EXISTING, well-formed configuration (wh). The well-formed part is taken back (Reset) before the
+// rejection is passed on, so that the judgement "nothing was installed, the target is the original" applies to the mistake alone.
+func chained(b *mocker.Builder, wh *mocker.When, bad func(*mocker.When)) {
+	defer func() {
+		r := recover()
+		b.Reset()
+		if r != nil {
+			panic(r)
+		}
+	}()
+	bad(wh)
 }
 
 // TestVerifRejectScenarios: one record per (mistake, prior state).
@@ -106,14 +120,20 @@ func TestVerifRejectScenarios(t *testing.T) {
 		{"unknown-method", func(b *mocker.Builder) { b.Struct(&fn.S{}).Method("Nope").Return(1) }, fTok, nil, followF},
 		{"unknown-symbol", func(b *mocker.Builder) { b.Pkg(fn.Pkg).ExportFunc("nope").Apply(func(a int) int { return 0 }) }, fTok, nil, followF},
 		{"unknown-symbol-as", func(b *mocker.Builder) { b.Pkg(fn.Pkg).ExportFunc("nope").As(func(a int) int { return 0 }).Return(1) }, fTok, nil, followF},
-		{"iface-non-pointer", func(b *mocker.Builder) { b.Interface(123).Method("Z").Apply(func(c *mocker.IContext, a int) int { return 0 }) }, ifaceTok, nil, nil},
+		{"iface-non-pointer", func(b *mocker.Builder) {
+			b.Interface(123).Method("Z").Apply(func(c *mocker.IContext, a int) int { return 0 })
+		}, ifaceTok, nil, nil},
 		{"iface-not-interface", func(b *mocker.Builder) {
 			s := &fn.S{}
 			b.Interface(&s).Method("F").Apply(func(c *mocker.IContext, a int) int { return 0 })
 		}, ifaceTok, nil, nil},
 		{"iface-first-param", func(b *mocker.Builder) { b.Interface(&ifc.J1).Method("Z").Apply(func(c int, a int) int { return 0 }) }, ifaceTok, nil, nil},
-		{"iface-arity", func(b *mocker.Builder) { b.Interface(&ifc.J1).Method("Z").Apply(func(c *mocker.IContext) int { return 0 }) }, ifaceTok, nil, nil},
-		{"iface-unknown-method", func(b *mocker.Builder) { b.Interface(&ifc.J1).Method("Nope").Apply(func(c *mocker.IContext, a int) int { return 0 }) }, ifaceTok, nil, nil},
+		{"iface-arity", func(b *mocker.Builder) {
+			b.Interface(&ifc.J1).Method("Z").Apply(func(c *mocker.IContext) int { return 0 })
+		}, ifaceTok, nil, nil},
+		{"iface-unknown-method", func(b *mocker.Builder) {
+			b.Interface(&ifc.J1).Method("Nope").Apply(func(c *mocker.IContext, a int) int { return 0 })
+		}, ifaceTok, nil, nil},
 	}
 	// mistake class x signature x position of the offending argument (targets: two fixed parameters, variadic with two fixed,
 	// method, method by name, interface stub); target() = every involved target still behaves as the original
@@ -153,16 +173,22 @@ func TestVerifRejectScenarios(t *testing.T) {
 		{"when-arg-size", func(b *mocker.Builder) { b.Func(fn.F).When(int8(1)).Return(1) }, allOrig, nil, nil},
 		{"when-arg-size@2", func(b *mocker.Builder) { b.Func(sig.F2).When(1, int8(2)).Return(1) }, allOrig, nil, nil},
 		{"returns-size@2", func(b *mocker.Builder) { b.Func(fn.F).Returns(1, int8(2)) }, allOrig, nil, nil},
-		{"uemethod-unknown", func(b *mocker.Builder) { b.Struct(&fn.S{}).ExportMethod("nope").Apply(func(s *fn.S, a int) int { return 0 }) }, allOrig, nil, nil},
+		{"uemethod-unknown", func(b *mocker.Builder) {
+			b.Struct(&fn.S{}).ExportMethod("nope").Apply(func(s *fn.S, a int) int { return 0 })
+		}, allOrig, nil, nil},
 		{"uefunc-ret-few", func(b *mocker.Builder) { b.Pkg(fn.Pkg).ExportFunc("f").As(func(a int) int { return 0 }).Return() }, allOrig, nil, nil},
-		{"uefunc-ret-size", func(b *mocker.Builder) { b.Pkg(fn.Pkg).ExportFunc("f").As(func(a int) int { return 0 }).Return(int8(1)) }, allOrig, nil, nil},
+		{"uefunc-ret-size", func(b *mocker.Builder) {
+			b.Pkg(fn.Pkg).ExportFunc("f").As(func(a int) int { return 0 }).Return(int8(1))
+		}, allOrig, nil, nil},
 		{"iface-ret-size", func(b *mocker.Builder) {
 			b.Interface(&ifc.J1).Method("Z").As(func(c *mocker.IContext, a int) int { return 0 }).Return(int8(1))
 		}, allOrig, nil, nil},
 		{"iface-ret-few", func(b *mocker.Builder) {
 			b.Interface(&ifc.J1).Method("Z").As(func(c *mocker.IContext, a int) int { return 0 }).Return()
 		}, allOrig, nil, nil},
-		{"iface-apply-size", func(b *mocker.Builder) { b.Interface(&ifc.J1).Method("Z").Apply(func(c *mocker.IContext, a int8) int { return 0 }) }, allOrig, nil, nil},
+		{"iface-apply-size", func(b *mocker.Builder) {
+			b.Interface(&ifc.J1).Method("Z").Apply(func(c *mocker.IContext, a int8) int { return 0 })
+		}, allOrig, nil, nil},
 	}
 	loopTok := func() string {
 		if fn.Loop(5) == 5 && fn.Loop(104) == 98 {
@@ -187,13 +213,30 @@ func TestVerifRejectScenarios(t *testing.T) {
 	more = append(more,
 		scen{"empty-method-name", func(b *mocker.Builder) { b.Struct(&fn.S{}).Method("").Return(1) }, allOrig, nil, nil},
 		scen{"empty-method-name-apply", func(b *mocker.Builder) { b.Struct(&fn.S{}).Method("").Apply(func(s *fn.S, a int) int { return 0 }) }, allOrig, nil, nil},
-		scen{"empty-uemethod-name", func(b *mocker.Builder) { b.Struct(&fn.S{}).ExportMethod("").Apply(func(s *fn.S, a int) int { return 0 }) }, allOrig, nil, nil},
+		scen{"empty-uemethod-name", func(b *mocker.Builder) {
+			b.Struct(&fn.S{}).ExportMethod("").Apply(func(s *fn.S, a int) int { return 0 })
+		}, allOrig, nil, nil},
 		scen{"empty-uefunc-name", func(b *mocker.Builder) { b.Pkg(fn.Pkg).ExportFunc("").Apply(func(a int) int { return 0 }) }, allOrig, nil, nil},
-		scen{"iface-empty-method-name", func(b *mocker.Builder) { b.Interface(&ifc.J1).Method("").Apply(func(c *mocker.IContext, a int) int { return 0 }) }, allOrig, nil, nil},
+		scen{"iface-empty-method-name", func(b *mocker.Builder) {
+			b.Interface(&ifc.J1).Method("").Apply(func(c *mocker.IContext, a int) int { return 0 })
+		}, allOrig, nil, nil},
 		scen{"iface-return-before-as", func(b *mocker.Builder) { b.Interface(&ifc.J1).Method("Z").Return(1) }, allOrig, nil, nil},
 		scen{"iface-returns-before-as", func(b *mocker.Builder) { b.Interface(&ifc.J1).Method("Z").Returns(1, 2) }, allOrig, nil, nil},
 		scen{"iface-when-before-as", func(b *mocker.Builder) { b.Interface(&ifc.J1).Method("Z").When(1).Return(1) }, allOrig, nil, nil},
 		scen{"method-when-few", func(b *mocker.Builder) { b.Struct(&sig.S{}).Method("M2").When(1).Return(1) }, allOrig, nil, nil},
+		// too few conditions given on an EXISTING configuration (When.When / Matches have no checkParams of their own)
+		scen{"when-few-chained-variadic", func(b *mocker.Builder) {
+			chained(b, b.Func(sig.V2).Return(9), func(w *mocker.When) { w.When(1).Return(1) })
+		}, allOrig, nil, nil},
+		scen{"when-few-chained-fixed", func(b *mocker.Builder) {
+			chained(b, b.Func(sig.F2).Return(9), func(w *mocker.When) { w.When(1).Return(1) })
+		}, allOrig, nil, nil},
+		scen{"when-few-chained-variadic-method", func(b *mocker.Builder) {
+			chained(b, b.Struct(&sig.S{}).Method("MV").Return(9), func(w *mocker.When) { w.When().Return(1) })
+		}, allOrig, nil, nil},
+		scen{"matches-few-variadic", func(b *mocker.Builder) {
+			chained(b, b.Func(sig.V2).Return(9), func(w *mocker.When) { w.Matches(arg.Pair{Args: []interface{}{1}, Return: 1}) })
+		}, allOrig, nil, nil},
 		scen{"nil-func-target", func(b *mocker.Builder) { b.Func(nil).Return(1) }, allOrig, nil, nil},
 		scen{"var-apply-non-func", func(b *mocker.Builder) { b.Var(&vars.SV[0]).Apply(5) }, allOrig, nil, nil},
 		scen{"var-apply-two-results", func(b *mocker.Builder) { b.Var(&vars.SV[0]).Apply(func() (int, int) { return 1, 2 }) }, allOrig, nil, nil})
